@@ -673,11 +673,33 @@ Definition vk_list (n : Z) (bases : list Z) (p : vkp) : outcome (list Z) :=
   | _, _ => Panic
   end.
 
+(* validkeyproof.go (repaired): apart from the group prime, N (positions 8, 9) and the commitments of the QSPP proof,
+   every entry of the recomputed list is an element of the group modulo GroupPrime and must not be 0 modulo it: a
+   prover-supplied commitment that is 0 makes every relation it occurs in hold vacuously *)
+Definition vk_nonzero_ok (gp : Z) (l : list Z) (qspp_len tail_len : nat) : bool :=
+  let total := List.length l in
+  let qspp_end := (total - tail_len)%nat in
+  let qspp_start := (qspp_end - qspp_len)%nat in
+  forallb (fun ix => let '(i, x) := ix in
+             (i =? 8)%nat || (i =? 9)%nat || ((qspp_start <=? i)%nat && (i <? qspp_end)%nat) || negb (x mod gp =? 0))
+          (combine (seq 0 total) l).
+
+Definition vk_nonzero (n : Z) (bases : list Z) (p : vkp) (l : list Z) : outcome bool :=
+  match vk_groupprime p, vk_challenge p with
+  | Some gp, Some c =>
+    let! l11 := issq_commitments (build_group gp) c n bases (vk_bases p) in
+    Ok (vk_nonzero_ok gp l (List.length (opt_list_l (as_commitments (q_aspp (vk_qspp p))))) (List.length l11))
+  | _, _ => Panic
+  end.
+
 Definition vk_verify (n : Z) (bases : list Z) (gp_prime half_prime n_prime : bool) (p : vkp) : outcome bool :=
   if negb (vk_structure_ok n bases gp_prime half_prime p) then Ok false
   else
     let! l := vk_list n bases p in
     match vk_challenge p with
     | None => Panic
-    | Some c => if negb (c =? hash_commit false l) then Ok false else qspp_verify n c n_prime (vk_qspp p)
+    | Some c =>
+      if negb (c =? hash_commit false l) then Ok false
+      else let! nz := vk_nonzero n bases p l in
+           if negb nz then Ok false else qspp_verify n c n_prime (vk_qspp p)
     end.
